@@ -235,19 +235,24 @@ Section Lts.
 
   (* ---- subscribers: the snapshot taken by onUpdate and the raw events delivered since ---- *)
   Record vsub := mkVS { vs_tid : nat; vs_ro : ropts; vs_at : vstate; vs_evs : list vevent }.
-  Record csub := mkCS { cs_tid : nat; cs_ro : ropts; cs_at : cstate; cs_evs : list cevent }.
+  (* cs_skip: the threads whose commit the snapshot already shows and whose publication is still to
+     come.  The code numbers the commits and drops the changes numbered up to the snapshot's; with
+     one call per thread those are exactly the publications of the threads parked at coll.publish
+     when the snapshot is taken (a Delete publishes inside its commit step).  An updates-only
+     subscription takes no snapshot and drops nothing. *)
+  Record csub := mkCS { cs_tid : nat; cs_ro : ropts; cs_at : cstate; cs_evs : list cevent; cs_skip : list nat }.
 
   Record state := mkSt {
     st_w : world;
     st_pcs : list pc;                          (* thread t is element t *)
     st_vsubs : list vsub;
     st_csubs : list csub;
-    (* ghosts *)
+    (* ghosts (st_pendc doubles as the set of commits a snapshot shows ahead of their publication) *)
     st_wit : list (nat * outcome * nat);       (* linearization order: thread, outcome, step index *)
     st_k : nat;                                (* steps executed *)
     st_stutter : nat;                          (* schedule entries naming no live thread *)
-    st_pendv : list nat;                       (* committed, not yet published (commit order) *)
-    st_pendc : list nat;
+    st_pendv : list nat;                       (* ghost: committed, not yet published (commit order) *)
+    st_pendc : list nat;                       (* same for the collection; read by a subscribe step (cs_skip) *)
     st_overlap : bool;                         (* a commit happened while another was unpublished *)
     st_reordered : bool                        (* a publication overtook an earlier commit *)
   }.
@@ -290,8 +295,10 @@ Section Lts.
                           | _ => st_vsubs s
                           end in
             let csubs' := match eff with
-                          | EPubC e => map (fun u => mkCS (cs_tid u) (cs_ro u) (cs_at u) (cs_evs u ++ [e])) (st_csubs s)
-                          | ESubC ro => st_csubs s ++ [mkCS t ro (w_c (st_w s)) []]
+                          | EPubC e => map (fun u => if existsb (Nat.eqb t) (cs_skip u) then u
+                                                     else mkCS (cs_tid u) (cs_ro u) (cs_at u) (cs_evs u ++ [e]) (cs_skip u))
+                                           (st_csubs s)
+                          | ESubC ro => st_csubs s ++ [mkCS t ro (w_c (st_w s)) [] (if v0 || ro_updates_only ro then [] else st_pendc s)]
                           | _ => st_csubs s
                           end in
             mkSt w' (set_nth t p' (st_pcs s)) vsubs' csubs' wit' (S (st_k s)) (st_stutter s)
